@@ -462,6 +462,17 @@ Walk:
 
 			// No next static segment found, but maybe some params or wildcard child
 			if idx < 0 {
+				// Tsr recommendation: remove the extra trailing slash. We are about to leave a leaf with only a slash left
+				// in the path, and a wildcard child never matches an empty segment (e.g. /foo/ with /foo and /foo{bar}).
+				if !tsr && current.isLeaf() && len(path[charsMatched:]) == 1 && path[charsMatched] == slashDelim && (current.paramChildIndex >= 0 || current.wildcardChildIndex >= 0) {
+					tsr = true
+					n = current
+					// Save also a copy of the matched params, it should not allocate anything in most case.
+					if !lazy {
+						copyWithResize(c.tsrParams, c.params)
+					}
+				}
+
 				// We have at least a param child which is has higher priority that catch-all
 				if current.paramChildIndex >= 0 {
 					// We have also a wildcard child, save it for later evaluation
